@@ -387,6 +387,44 @@ def maximal_prefixes(cfg, faulty, kinds, max_len):
     return out
 
 
+def class_prefixes(cfg, max_len):
+    """all sequences over {ok, fail} up to max_len, pruned where the property says the run stops"""
+    out = []
+
+    def rec(seq):
+        hist = [(c, 1) for c in seq]
+        if prop_stop(hist, cfg, 0, 0) or len(seq) == max_len:
+            out.append(list(seq))
+            return
+        for c in ('ok', 'fail'):
+            rec(seq + [c])
+    rec([])
+    return out
+
+
+def half_rule_case(rng):
+    """aims at `samples > 10 and failed > samples / 2` with at most 6 failures: 10-13 samples, 5-6 failures spread
+    so that fewer than `retries` fail in a row"""
+    retries = rng.choice([3, 4, 7])
+    cfg = {'N': 30, 'retries': retries, 'warmup': rng.choice([None, 1]), 'ignore_timeouts': False}
+    target = rng.choice([9, 10, 11, 12])
+    seq, samples = [], 0
+    w = cfg['warmup'] or 0
+    fails_left = rng.choice([5, 6, 6, 7])
+    while samples < target or fails_left > 0:
+        if fails_left > 0 and (samples >= target or rng.random() < 0.5) and (not seq or seq[-1].get('dps') or rng.random() < 0.5):
+            seq.append({'rc': 1, 'dps': 0})
+            fails_left -= 1
+        else:
+            d = rng.choice([1, 2, 2, 3])
+            seq.append({'rc': 0, 'dps': d + w})
+            samples += d
+        if len(seq) > 40:
+            break
+    seq += [{'rc': 0, 'dps': 1 + w}, {'rc': 1, 'dps': 0}, {'rc': 0, 'dps': 1 + w}] * 3
+    return {'cfg': cfg, 'outcomes': seq}
+
+
 def threshold_case(rng):
     """long mixed sequences that cross `failed > 6` and `samples > 10 and failed > samples / 2`"""
     retries = rng.choice([2, 3, 4, 8])
@@ -485,44 +523,53 @@ def run(ck):
     rng = ck.rng
     ck.pending_search = []
     ck.rule = ('(A) one run per case, many independent cases per real session (batch scheduler, scripted processes): '
-               'all outcome sequences over {ok, exit!=0, unparsable, invalid marker, timeout} up to length %d, pruned at '
+               'all outcome sequences over {ok, exit!=0, unparsable, invalid marker, timeout} up to length %d and all '
+               'success/failure sequences up to length %d (failure kind drawn at random), pruned at '
                'the point where the property says the run stops, x N in 1..%d x retries 0..3 x -f x ignore_timeouts; '
                'random sequences over 13 outcome kinds incl. 126 / 127 / OSError at every position; long sequences '
                'directed at the thresholds failed > 6 and samples > 10; (B) 2-4 runs sharing executables under batch / '
                'round-robin / random with 127 outcomes. non-trivial = at least two process starts (A) or a 127 present (B), '
-               'distinct by configuration and consumed outcome prefix' % ((5, 3) if quick else (8, 4)))
+               'distinct by configuration and consumed outcome prefix' % ((3, 5, 3) if quick else (4, 8, 4)))
     for name, data in load_corpus(ck):
         ck.count('corpus')
         run_input(ck, data['input'], 'corpus:' + name)
     queue_of(ck).flush()
-    # (A1) exhaustive enumeration
-    max_len = 5 if quick else 8
+    # (A1) exhaustive enumerations
+    #  (a) kind level: every sequence over the five outcome kinds of the property up to length Lk
+    #  (b) class level: every sequence over {success, failure} up to length Lc, each class instantiated by a
+    #      randomly chosen outcome kind of that class (the retry rule depends on the classes only; the
+    #      classification of every kind is exercised by (a) and by the random part)
+    len_k, len_c = (3, 5) if quick else (4, 8)
     max_n = 3 if quick else 4
-    batch = []
-    total = 0
+    total_k = total_c = 0
     for faulty in (False, True):
         for ig in (False, True):
             cases = []
             for n in range(1, max_n + 1):
                 for retries in range(0, 4):
                     cfg = {'N': n, 'retries': retries, 'warmup': None, 'ignore_timeouts': ig}
-                    seqs = maximal_prefixes(cfg, faulty, BASIC, max_len)
-                    if quick and len(seqs) > 260:
-                        seqs = rng.sample(seqs, 260)
-                    elif not quick and len(seqs) > 6000:
-                        seqs = rng.sample(seqs, 6000)
-                    for s in seqs:
-                        cases.append({'cfg': cfg, 'outcomes': [dict(KINDS[k]) for k in s]})
-            total += len(cases)
+                    seqs = maximal_prefixes(cfg, faulty, BASIC, len_k)
+                    total_k += len(seqs)
+                    for sq in seqs:
+                        cases.append({'cfg': cfg, 'outcomes': [dict(KINDS[k]) for k in sq]})
+                    oks = [k for k in KINDS if prop_class(KINDS[k], faulty, ig) == 'ok']
+                    fails = [k for k in KINDS if prop_class(KINDS[k], faulty, ig) == 'fail']
+                    for sq in class_prefixes(cfg, len_c):
+                        total_c += 1
+                        cases.append({'cfg': cfg, 'outcomes': [dict(KINDS[rng.choice(oks if c == 'ok' else fails)])
+                                                               for c in sq]})
             for i in range(0, len(cases), 150):
                 check_cases(ck, cases[i:i + 150], faulty, 'enum')
-    ck.exhaustive = not quick
-    ck.notes.append('enumerated %d pruned outcome sequences (max length %d)' % (total, max_len))
+    ck.exhaustive = True
+    ck.notes.append('exhaustive: %d pruned sequences over the 5 outcome kinds up to length %d, %d pruned '
+                    'success/failure sequences up to length %d (x N 1..%d x retries 0..3 x -f x ignore_timeouts)'
+                    % (total_k, len_k, total_c, len_c, max_n))
     # (A2) random and threshold-directed
-    n_rand = 600 if quick else 12000
-    n_thr = 300 if quick else 6000
+    n_rand = 600 if quick else 10000
+    n_thr = 300 if quick else 5000
     for faulty in (False, True):
-        cases = [random_case(rng) for _ in range(n_rand // 2)] + [threshold_case(rng) for _ in range(n_thr // 2)]
+        cases = ([random_case(rng) for _ in range(n_rand // 2)] + [threshold_case(rng) for _ in range(n_thr // 2)]
+                 + [half_rule_case(rng) for _ in range(n_thr // 4)])
         # 127 / 126 / OSError at every position of a fixed pattern
         base = ['ok', 'exit', 'ok', 'unparsable', 'ok', 'ok']
         for pos in range(len(base) + 1):
@@ -533,7 +580,7 @@ def run(ck):
         for i in range(0, len(cases), 120):
             check_cases(ck, cases[i:i + 120], faulty, 'rand')
     # (B) shared executables
-    for _ in range(60 if quick else 1500):
+    for _ in range(80 if quick else 1500):
         scn, sess = shared_scenario(rng)
         check_shared(ck, scn, sess, 'shared')
     queue_of(ck).flush()
